@@ -172,6 +172,7 @@ func c04Run(ci any) Result {
 		}
 	})
 	panicked := ""
+	warmed := false
 	func() {
 		defer func() {
 			if r := recover(); r != nil {
@@ -236,6 +237,27 @@ func c04Run(ci any) Result {
 				panicked = fmt.Sprint(r)
 			}
 		}()
+		if (len(c.Req.Path)+len(c.Ops))%2 == 0 {
+			// the application has just served a request for every registered route (all hosts): what those left in
+			// the pooled context (handler, path, middleware chain) must not take part in answering this one
+			for _, o := range c.Ops {
+				if o.Kind != "add" {
+					continue
+				}
+				full, host := o.Path, ""
+				if o.G >= 0 && o.G < len(infos) {
+					full, host = infos[o.G].prefix+o.Path, infos[o.G].host
+				}
+				pm := o.Method
+				if o.Via == "any" {
+					pm = "GET"
+				}
+				full = strings.ReplaceAll(strings.ReplaceAll(full, ":id", "7"), "*", "w")
+				e.ServeHTTP(httptest.NewRecorder(), rNewRequest(rReq{Method: pm, Path: full, Host: host}))
+			}
+			trace = nil
+			warmed = true
+		}
 		rec := httptest.NewRecorder()
 		e.ServeHTTP(rec, rNewRequest(c.Req))
 		status = rec.Code
@@ -481,6 +503,9 @@ func c04Run(ci any) Result {
 	}
 	res.Nontrivial = len(ins) >= 2 && len(infos) > 0
 	res.Tags = []string{fmt.Sprintf("layers-%d", minInt(len(ins), 6))}
+	if warmed {
+		res.Tags = append(res.Tags, "after-requests-to-every-route")
+	}
 	if hasH {
 		res.Tags = append(res.Tags, "user-handler")
 	} else {
@@ -619,6 +644,43 @@ func c04Gen(r *rand.Rand, tier string) []any {
 				paths = append(paths, gs[first+sib].prefix+"/r", gs[first+sib].prefix+"/r", gs[first+sib].prefix+"/missing")
 			}
 			nops = r.Intn(4)
+		} else if r.Intn(5) == 0 {
+			// the same for routes: a group whose list has spare capacity (several single Use calls, or five ids at
+			// once), then routes with route-level middleware through the various entry points, with further Use
+			// calls and registrations in between: every route keeps exactly the snapshot of its registration
+			pre := c04Segs[r.Intn(len(c04Segs))]
+			first := newIDs(1)
+			if r.Intn(3) == 0 {
+				first = []int{nextID, nextID + 1, nextID + 2, nextID + 3, nextID + 4}
+				nextID += 5
+			}
+			ops = append(ops, c04Op{Kind: "group", Parent: -1, Prefix: pre, Mws: first})
+			gs = append(gs, ginfo{"", pre})
+			usedPrefix["|"+pre] = true
+			g := len(gs) - 1
+			for u := 0; u < r.Intn(4); u++ {
+				ops = append(ops, c04Op{Kind: "groupUse", G: g, Mws: []int{nextID}})
+				nextID++
+			}
+			nr := 2 + r.Intn(3)
+			for k := 0; k < nr; k++ {
+				ao := c04Op{Kind: "add", G: g, Method: []string{"GET", "POST"}[r.Intn(2)], Path: "/r" + strconvItoa(k), Hid: nextHid, Mws: []int{nextID}}
+				nextID++
+				if r.Intn(2) == 0 {
+					ao.Mws = append(ao.Mws, nextID)
+					nextID++
+				}
+				ao.Via = []string{"", "verb", "match", "any", "any", "match"}[r.Intn(6)]
+				ops = append(ops, ao)
+				nextHid++
+				paths = append(paths, pre+ao.Path, pre+ao.Path)
+				if r.Intn(2) == 0 {
+					ops = append(ops, c04Op{Kind: "groupUse", G: g, Mws: []int{nextID}})
+					nextID++
+				}
+			}
+			paths = append(paths, pre+"/missing")
+			nops = r.Intn(3)
 		}
 		for k := 0; k < nops; k++ {
 			switch x := r.Intn(20); {
